@@ -243,6 +243,9 @@ def _is_self_attribute_assignment(node: ast.AST) -> bool:
     Returns:
         True if node is self attribute assignment
     """
+    if isinstance(node, (ast.AugAssign, ast.AnnAssign)):
+        # self._count += 1 and self._count: int = 0 keep state on the instance as well
+        return _is_self_attribute(node.target)
     if not isinstance(node, ast.Assign):
         return False
     return any(_is_self_attribute(t) for t in node.targets)
